@@ -29,14 +29,14 @@ CLAIMED = {
         "Theorems in lean/Tup/Props/C02.lean over every reachable database and admissible choice/tie-break; generated histories (all spaces, subspaces "
         "forcing every path, ties on atime, max-ids values) run on the real IDManager with all six tables dumped and compared after every step; "
         "Spec.AllocStep predicates judge the real before/after dumps.",
-        "Trusted: Lean kernel; sqlite semantics; executable AllocStep checkers vs their Prop meanings. getAll_merged (heap merge) only by correspondence.",
+        "Trusted: Lean kernel; sqlite semantics; executable AllocStep checkers vs their Prop meanings.",
         "DESIGN.md section 5, C02",
     ),
     "C04": (
         "Lean 4 table-level soundness/completeness theorems for needs_uploading + ghost-log retention specification judged on generated histories",
         "Theorems in lean/Tup/Props/C04.lean (needsUploading_sound_partial/_complete_partial at table level, markUploaded_records, tie_witness); the "
         "ghost arrival log of Spec.Retention is maintained by the harness over histories with several terminals and judged against the real answers.",
-        "PARTIAL: the simulation between the upload table and the ghost log through histories is exercised, not proved; equal timestamps = known finding D16.",
+        "History-level soundness/completeness against Spec.Retention are proved in Props/C08.lean (needsUploading_sound/_complete); equal timestamps = known finding D16 (StrictTimes hypothesis).",
         "DESIGN.md section 5, C04",
     ),
     "C05": (
@@ -82,7 +82,7 @@ CLAIMED = {
         "Lean 4 theorems over a model of validate_and_normalize and the layer fold (option table regenerated from the code) + differential correspondence through the real constructor",
         "Theorems in lean/Tup/Props/C17.lean (precedence, layer_labels, printer/parser round trips, wrong_type_rejected, same_text_every_layer[_partial]); "
         "every option x value class x subset of layers through the real TupimageTerminal constructor in a pty child; TOML dump/load round trip checked dynamically.",
-        "PARTIAL: TOML round trip only dynamic; same_text_every_layer_partial excludes floats/negative ints/free strings/lists on the Lean side. Trusted: toml 0.10.2 as identity channel.",
+        "PARTIAL: same_text_every_layer_partial excludes floats/free strings/lists on the Lean side. toml_roundtrip proved on the typed channel; toml 0.10.2 trusted as identity on native TOML values.",
         "DESIGN.md section 5, C17",
     ),
     "C07": (
@@ -91,14 +91,14 @@ CLAIMED = {
         "requested cells under Spec.Term + Spec.Decode; table regenerated from /repo equals the pinned protocol table (kernel-checked); absolute "
         "and non-scrolling at-cursor styles proved end to end. The real to_lines/to_stream bytes are compared with the model and fed to the "
         "specification terminal (all four styles, scrolling, right margin) to find failing inputs; thorough: Spec.Term validated against tmux 3.3a.",
-        "PARTIAL: scrolling and line-feed choreography theorems are TODO (covered by running the spec on the real bytes). Trusted: Spec.Term/Spec.Decode, pinned table.",
+        "Scrolling and line-feed (ONLCR) choreography proved; non-default margins while scrolling by F only. Trusted: Spec.Term/Spec.Decode, pinned table.",
         "DESIGN.md section 5, C07",
     ),
     "C13": (
         "Lean 4 theorems (line_resets, ends_default, line_alone, formatting confinement) + differential correspondence with subsets/permutations of lines fed to the spec terminal",
         "Theorems in lean/Tup/Props/C13.lean for any terminal state and background-only formatting; the real lines (all formatting kinds) alone, in "
         "subsets and permuted are fed to Spec.Term from arbitrary SGR states and judged by Spec.Decode and the final SGR state.",
-        "PARTIAL: confinement under scrolling / line-feed styles by correspondence only; arbitrary caller formatting bytes by correspondence only.",
+        "Arbitrary (non-background) caller formatting bytes by correspondence only.",
         "DESIGN.md section 5, C13",
     ),
     "C14": (
@@ -133,7 +133,7 @@ CLAIMED = {
         "placeholder print Spec.printOk holds (StrictTimes hypothesis visible); medium_policy for every transmission. Real code: 1-3 in-process "
         "TupimageTerminals on one database with generated scenarios (recycling, eviction, downscaling, SSH/method, tmux layers, terminal switches); "
         "command streams are parsed, pixels decoded with PIL, and Spec.Store judges every print; thorough adds concurrently running CLI processes on one tty.",
-        "PARTIAL: PIL, filesystem mtime granularity and real concurrency inside a request are modelled/observed only; Model.Display is tied to the code through the C02/C04/C09 correspondences and the F oracle, not by its own K.",
+        "PARTIAL: PIL, filesystem mtime granularity and real concurrency inside a request are modelled/observed only; Model.Display is tied to the code by a per-request K (transmit / printed id+geometry / returned id) with the implementation's choices as inputs.",
         "DESIGN.md section 5, C08",
     ),
     "C09": (
